@@ -27,7 +27,7 @@ where
     let mut ints = alpha::field_values(p, limbs, &mut rng, 16);
     // explicit squares and non-squares (class decided by the reference Euler criterion)
     let (mut nsq, mut nns) = (0, 0);
-    let want = ctx.tier.pick(64, 256);
+    let want = ctx.tier.pick(64, 1024);
     while nsq < want || nns < want {
         let x = alpha::rand_below(&mut rng, p);
         let e = Zp::<M>::new_ref(&x).euler();
@@ -168,7 +168,7 @@ pub fn run(ctx: &Ctx) -> (&'static str, &'static str) {
         }
     }
     // class-targeted members: norm residue / non-residue, alpha == -1 branch (a^((q-1)/2) = -1 in Fq2)
-    let want = ctx.tier.pick(48, 256);
+    let want = ctx.tier.pick(48, 768);
     let e_half = (qq - 1u32) >> 1;
     let minus1 = Q2::one().neg();
     let (mut n_res, mut n_non, mut n_alpha) = (0usize, 0usize, 0usize);
